@@ -427,7 +427,16 @@ func init() {
 	})
 	reg("time.Sleep", func(ex *Exec, fr *Frame, site ssa.Instruction, a []Value) Value {
 		ex.recordEnv("time.Sleep", a[0])
-		ex.syncPoint(site)
+		// sleeping = waiting for a timer: the goroutine resumes when virtual time has advanced
+		fired := false
+		ev := &envEvent{label: "sleep", armed: true}
+		ex.setDeadline(ev, a[0])
+		ev.fire = func() {
+			ev.armed = false
+			fired = true
+		}
+		ex.addEnvEvent(ev)
+		ex.blockUntil(func() bool { return fired }, "time.Sleep", site)
 		return nil
 	})
 	reg("time.NewTicker", func(ex *Exec, fr *Frame, site ssa.Instruction, a []Value) Value {
